@@ -423,6 +423,7 @@ impl<T: Eq + Hash> FrequentItemsSketch<T> {
             bytes.write_u8(self.lg_max_map_size);
             bytes.write_u8(self.hash_map.lg_length());
             bytes.write_u8(EMPTY_FLAG_MASK);
+            bytes.write_u16_le(0); // unused: the first preamble long is always written in full
             return bytes.into_bytes();
         }
 
